@@ -83,6 +83,16 @@ def check(ctx, report):
     report.rule('C16.R5', 'name-lists fed to hassh: split at commas, order kept, unknown names preserved one by one')
     from ..textlists import string_array_table
     string_array_table(ctx, report, 'C16.R5', 'ssh')
+    # ---- R6: the blob that is hashed is composed from the parsed fields: a certificate validity bound that is read as another value
+    # than the one on the wire (or as "forever") is hashed as other bytes than the peer sent (timestamp tabulation shared with C11.R5)
+    from .c11 import flags_and_timestamps
+    report.rule('C16.R6', 'certificate validity bounds survive parse / compose: every wire value that is accepted is written back as it was')
+    flags_and_timestamps(ctx, report, R4='C16.R6', R5='C16.R6')
+    # ---- R7: the key object that is fingerprinted stands for the *whole* blob that was on the wire: a nested parse of the key whose
+    # reported length is dropped accepts a key followed by other bytes, and the digest is then taken over a shorter blob than the peer
+    # sent (rule shared with C03.R6, on the SSH modules)
+    from .c03 import nested_lengths
+    nested_lengths(ctx, report, RULE='C16.R7', scope='cryptoparser/ssh/')
     # ---- R4: the blob that is hashed is the RFC 4253 / PROTOCOL.certkeys encoding (layout comparison shared with C07.R1)
     report.rule('C16.R4', 'composer of every host key / certificate class equals the specified key blob layout')
     from .. import speccheck
